@@ -169,6 +169,7 @@ type World struct {
 	events  []Event
 	mgrs    []*allocation.Manager
 	stepNo  int
+	t0      time.Time
 	authSleep time.Duration
 	extraClientSocks []*sim.UDPSock
 	curOp   string
@@ -222,7 +223,7 @@ func (w *World) clientIndex(a net.Addr) int {
 
 // NewWorld builds the world for cfg (must be called inside the bubble).
 func NewWorld(cfg Config, verbose bool) (*World, error) {
-	w := &World{cfg: cfg, net: sim.NewNet(), log: sim.NewLogger(120), verbose: verbose}
+	w := &World{cfg: cfg, net: sim.NewNet(), log: sim.NewLogger(120), verbose: verbose, t0: time.Now()}
 	w.gen = &simGen{w: w}
 	w.model = newModel(&w.cfg)
 	sip := ServerIP4
@@ -286,7 +287,7 @@ func NewWorld(cfg Config, verbose bool) (*World, error) {
 			PacketConn:            s,
 			RelayAddressGenerator: w.gen,
 			PermissionHandler: func(clientAddr net.Addr, peerIP net.IP) bool {
-				return !w.cfg.denied(w.clientIndex(clientAddr), peerIP)
+				return !w.deniedAt(time.Now(), w.clientIndex(clientAddr), peerIP)
 			},
 		}},
 		EventHandler: turn.EventHandler{
@@ -463,4 +464,14 @@ func (w *World) callbacksActive() int {
 	defer w.evMu.Unlock()
 
 	return w.cbActive
+}
+
+// deniedAt is the operator's policy at instant `at`: with DenyAfterS the deny list only applies
+// from that many seconds after the world's start (a ban introduced while permissions exist).
+func (w *World) deniedAt(at time.Time, client int, ip net.IP) bool {
+	if w.cfg.DenyAfterS > 0 && at.Before(w.t0.Add(time.Duration(w.cfg.DenyAfterS)*time.Second)) {
+		return false
+	}
+
+	return w.cfg.denied(client, ip)
 }
